@@ -53,8 +53,9 @@ def matrices(tier):
     for C in mr.all_matrices(3, (0, 1, 1000, 10 ** 6)):
         if C.max() == 10 ** 6 and (C == 1).any() and mr.strongly_connected(C):
             k += 1
-            if k % (41 if tier == 'quick' else 5) == 0:
+            if k % (199 if tier == 'quick' else 5) == 0:
                 wide.append(C)
+    wide.append(np.array([[10 ** 6, 10 ** 6, 1], [1, 1, 1], [1, 1, 1000]]))      # the recorded open finding (py vs compiled)
     wide.append(np.array([[0, 717876, 0], [1, 567228, 1], [1157731, 0, 0]]))
     wide.append(np.array([[10, 4500000, 0, 0], [3, 1, 2000, 0], [0, 5, 1, 70000], [1, 0, 9, 20]]))
     return out + wide
@@ -205,7 +206,7 @@ def run_shard(sh, ctx):
         jj = j // NSH[tier]
         scales = (1, 0.5, 1e-3, 1e3) if jj % 4 == 0 else (1,)
         for scale in scales:
-            cmp_py = (tier == 'thorough') or (jj % 3 == 0)
+            cmp_py = (tier == 'thorough') or (jj % 3 == 0) or (C.max() >= 10 ** 5)
             case = {'C': C.tolist(), 'scale': scale, 'impl': 'c', 'compare': cmp_py}
             check_case(case, ctx)
             if scale == 1 and jj % 6 == 0:
